@@ -1024,24 +1024,31 @@ func (e *exec) stop(kind string, n int) {
 // epilogue: orderly end of a run that was not stopped.
 func (e *exec) epilogue() {
 	e.opIdx.Store(int64(len(e.s.Ops)))
-	if e.faulted() && e.leakScan {
-		// after a divider fault the discipline must terminate (and leave no goroutine behind) once
-		// everything in flight is released, whether or not the inputs are ever closed
-		for round := 0; round < 4000 && !e.isTerminated(); round++ {
-			e.drain()
+	if e.s.Fault != nil {
+		// Scripts with a fault plan: first release everything without closing any input. If the
+		// fault has been injected by then, the discipline must terminate (and leave no goroutine
+		// behind) with its inputs still open.
+		idle := 0
+		for round := 0; round < 4000 && !e.isTerminated() && idle < 3; round++ {
+			got := e.drain()
 			e.snapshot(true)
 			if e.isTerminated() {
-				return
+				break
 			}
 			if e.liveLen() > 0 {
 				e.releaseOne(0)
 				e.wait()
+				idle = 0
 				continue
 			}
-			if round > 40 {
-				break
+			if got == 0 {
+				idle++
 			}
 		}
+		e.mu.Lock()
+		e.tr.FaultBeforeClose = e.tr.FaultCall > 0 && !e.tr.FaultAtCreate
+		e.tr.FaultTermOpenInputs = e.terminated
+		e.mu.Unlock()
 		if e.isTerminated() {
 			return
 		}
